@@ -4,6 +4,8 @@ S(p, ph) == [p |-> p, ph |-> ph]
 SchedsSmall == <<S(2, 0), S(3, 1)>>            \* co-prime
 SchedsNested == <<S(2, 0), S(4, 2), S(0, 0)>>  \* nested + never firing
 SchedsBig == <<S(2, 0), S(3, 1), S(2, 0)>>     \* co-prime + equal
+SchedsBetween == <<S(4, 2), S(4, 0), S(3, 0)>>   \* the third entry's first activation lies between the others'
+SchedsChain == <<S(2, 0), S(3, 1)>>
 SchedsLive == <<S(2, 1), S(3, 0)>>
 (* trace replay: only the number of entry slots matters, the schedules come from the recorded Schedule calls *)
 SchedsTrace == <<S(0, 0), S(0, 0), S(0, 0), S(0, 0), S(0, 0), S(0, 0)>>
